@@ -495,6 +495,16 @@ def cases(tier, seed):
                                         add(cl, base, ic)
                                     if k == 0 and sub == 0:
                                         add("ppt.frame", base, icl("ppt/" + form, da, db, field, "frame", sx))
+                        if n in (3, 4) and (da, db) == (2, 2) and sd == seeds[0] and field == "complex":
+                            # one list, three numpy dtypes (an integer product ket first, then a real, then complex ones)
+                            for form in forms:
+                                for rep in reps3:
+                                    i += 1
+                                    base = dict(da=da, db=db, n=n, field="complex", form=form, sub=pick([0, 1], i), solver=solver, rep=rep, prior="uniform", kind="mixed-dtype", seed=sd + i)
+                                    if skip(form, da, db, n):
+                                        continue
+                                    for cl in PPT_GENERIC:
+                                        add(cl, base, icl("ppt/" + form, da, db, "complex", "mixed-dtype-list", sx))
                         if n == 3 and (da, db) == (2, 2) and sd == seeds[0]:
                             # a state that is never prepared (exact zero prior, not last): the value is that of the remaining ensemble (dual form;
                             # the primal form breaks down in cvxopt when a prior is exactly zero)
